@@ -229,3 +229,11 @@ package server
 //@         (ifMatch != nil ==> $o != nil && $o.IfMatchETag != nil && *$o.IfMatchETag == *ifMatch && !$o.IfNoneMatchStar) &&
 //@         (ifNoneMatch != nil ==> $o != nil && $o.IfNoneMatchStar && $o.IfMatchETag == nil) &&
 //@         (ifMatch == nil && ifNoneMatch == nil && $o != nil ==> $o.IfMatchETag == nil && !$o.IfNoneMatchStar)
+
+// C05. GetObject, whole object or one range: exactly as many bytes as the Content-Length header announced are copied
+// from the reader the storage handed out for that range.
+//@ func (*Server).getObjectHandler
+//@ mode effects
+//@ inline generateContentRangeValue
+//@ effect[C05:body-length-is-the-announced-length] every ioutils.CopyN(_, _, $n) if len(storageRanges) <= 1
+//@     needs before http.Header.Set($k, $v) where $k == contentLengthHeader && $v == fmt.Sprintf("%v", $n)
